@@ -90,6 +90,15 @@ def model_selftest(ctx):
             raise Harness("beltHash anchor failed: " + got)
 
 
+def case(ctx, desc, cls):
+    """ctx.case + class accounting for cases that ran in an earlier segment of this job (a worker that died on a
+    later case loses its class histogram; the restarted worker skips those cases and re-credits their classes)"""
+    ok = ctx.case(desc, cls)
+    if not ok:
+        ctx.classes[cls] += 1
+    return ok
+
+
 def judge(ctx, rep, fname, label, verdict, reason, ok, detail):
     """verdict True -> library must accept, False -> must reject, None -> not judged"""
     if verdict is None:
@@ -456,6 +465,8 @@ def unit_primes_special(ctx):
                 _pri_all(ctx, rep, lib, (1 << k) + c, "2^k-neighbourhood", (20,))
     elif part == "std":
         for lab, a in std_primes(lib):
+            if a.bit_length() > ctx.params.get("maxbits", 4096):
+                continue
             _pri_all(ctx, rep, lib, a, "std:" + lab, (1, 8))
             _pri_all(ctx, rep, lib, a + 2, "std+2:" + lab.split(".")[0], (20,))
     elif part == "sg":
@@ -789,7 +800,10 @@ def _setf(P, f, raw):
     return Q
 
 
-def generic_alterations(rng, P, fields, nflip):
+LITE = ("zero", "+2", "x2+1", "top-octet-zero", "ones")
+
+
+def generic_alterations(rng, P, fields, nflip, lite=False):
     """fields: list of (name, used octets).  Yields (label, altered dict); label = kind:field (stable, no random part)"""
     out = []
     for f, no in fields:
@@ -810,7 +824,7 @@ def generic_alterations(rng, P, fields, nflip):
         for lab, x in (("zero", 0), ("one", 1), ("ones", (1 << (8 * no)) - 1), ("+1", v + 1), ("-1", v - 1), ("+2", v + 2),
                        ("+4", v + 4), ("x2", 2 * v), ("x2+1", 2 * v + 1), ("x3", 3 * v), ("half", v >> 1), ("top-octet-zero", v & ((1 << (8 * no - 8)) - 1)),
                        ("low-octet-zero", v & ~0xFF), ("reversed", M.le(raw[:no][::-1]))):
-            if x % (1 << (8 * no)) != v:
+            if x % (1 << (8 * no)) != v and (not lite or lab in LITE):
                 out.append(("%s:%s" % (lab, f), put(x)))
         if tot > no:
             b = bytearray(raw)
@@ -834,9 +848,10 @@ def run_param_cases(ctx, rep, fname, layout, cases, verdict_fn, call):
     lib = ctx.lib
     for label, Q in cases:
         raw = layout.pack(Q)
-        if not ctx.case([fname, ctx.params.get("set"), label, raw], "%s:%s" % (fname, label.split(":")[0])):
+        if not case(ctx, [fname, ctx.params.get("set"), label, raw], "%s:%s" % (fname, label.split(":")[0])):
             continue
         verdict, reason = verdict_fn(Q)
+        ctx.classes["%s:model-%s" % (fname, {True: "accept", False: "reject", None: "undecided"}[verdict])] += 1
         p = lib.mk(raw)
         r = call(p)
         after = lib.rd(p, layout.size)
@@ -844,7 +859,6 @@ def run_param_cases(ctx, rep, fname, layout, cases, verdict_fn, call):
         ctx.digest(r)
         if after != raw:
             rep("%s:modifies-input" % fname, "%s wrote into its const input" % fname, {"label": label})
-        ctx.classes["%s:model-%s" % (fname, {True: "accept", False: "reject", None: "undecided"}[verdict])] += 1
         judge(ctx, rep, fname, label, verdict, reason, r == 0,
               {"set": ctx.params.get("set"), "alteration": label, "model": [verdict, reason], "ret": r, "params": raw})
 
@@ -973,7 +987,7 @@ def unit_stb99(ctx):
     l, r = P["l"], P["r"]
     no, mo = (l + 7) // 8, (r + 7) // 8
     fields = [("p", no), ("q", mo), ("a", no), ("d", no)]
-    cases = [("std", P)] + generic_alterations(rng, P, fields, nflip)
+    cases = [("std", P)] + generic_alterations(rng, P, fields, nflip, ctx.params.get("lite", False))
     pv, qv, av, dv = M.le(P["p"]), M.le(P["q"]), M.le(P["a"]), M.le(P["d"])
 
     def putv(f, x, n):
@@ -1017,7 +1031,7 @@ def unit_pfok(ctx):
     l = P["l"]
     no = (l + 7) // 8
     fields = [("p", no), ("g", no)]
-    cases = [("std", P)] + generic_alterations(rng, P, fields, nflip)
+    cases = [("std", P)] + generic_alterations(rng, P, fields, nflip, ctx.params.get("lite", False))
     pv, gv = M.le(P["p"]), M.le(P["g"])
 
     def putv(f, x):
@@ -1109,7 +1123,7 @@ def unit_dstu(ctx):
         pts.append(("random", (rng.getrandbits(m), rng.getrandbits(m)), None))
     for lab, pt, exp in pts:
         raw = M.to_le(pt[0], no) + M.to_le(pt[1], no)
-        if not ctx.case(["dstuPointVal", name, lab, raw], "dstuPointVal:" + lab):
+        if not case(ctx, ["dstuPointVal", name, lab, raw], "dstuPointVal:" + lab):
             continue
         if exp is None:
             exp = E.is_on(pt) and E.mul(nv, pt) is None
@@ -1121,3 +1135,454 @@ def unit_dstu(ctx):
         ctx.digest(r)
         judge(ctx, rep, "dstuPointVal", lab, exp, lab, r == 0, {"set": name, "point": raw, "ret": r})
     rep.flush()
+
+
+# =============================================================================
+# seeds (stb99 / pfok): validation, adjustment, generation from a seed
+# =============================================================================
+
+def _chain(first, rule):
+    ch = [first]
+    while ch[-1] > 32:
+        ch.append(rule(ch[-1]))
+    return ch
+
+
+def _seed_cases(rng, S, chains, scheme):
+    """S: standard seed dict; chains: list of (name, capacity, plus4).  Returns [(label, seed dict)]"""
+    out = [("std", S)]
+    for i in (0, 15, 30):
+        for v in (0, 1, 65256, 65257, 65535):
+            z = list(S["zi"])
+            z[i] = v
+            out.append(("zi[%d]=%d" % (i, v), dict(S, zi=z)))
+    out.append(("zi-random", dict(S, zi=[rng.randrange(1, 65257) for _ in range(31)])))
+    for nm, cap, plus4 in chains:
+        ch = [v for v in S[nm] if v]
+        first = ch[0]
+
+        def put(c, nm=nm, cap=cap):
+            c = list(c)[:cap]
+            return dict(S, **{nm: c + [0] * (cap - len(c))})
+        t = len(ch) - 1
+        # boundaries of  5*x/4 (+4) < ch[i] <= 2*x  for the element after ch[i]
+        for i in (0, min(1, t - 1)):
+            hi = ch[i]
+            lo_min = (hi + 1) // 2
+            k = (4 * hi - (16 if plus4 else 0) - 1) // 5           # largest x with 5x (+16) < 4 hi
+            for x, lab in ((lo_min - 1, "below-half"), (lo_min, "half"), (k, "max"), (k + 1, "max+1"), (k - 3, "max-3"),
+                           (k - 4, "max-4"), (hi, "equal"), (hi // 2 + 1, "default")):
+                if x < 17:
+                    continue
+                c = ch[:i + 1] + _chain(x, lambda v: v // 2 + 1)
+                out.append(("%s[%d]:%s" % (nm, i + 1, lab), put(c)))
+        # end of chain
+        for last in (16, 17, 32, 33):
+            c = ch[:-1] + [last]
+            out.append(("%s-last=%d" % (nm, last), put(c)))
+        out.append(("%s-tail-nonzero" % nm, put(ch + [0, 17]) if len(ch) + 2 <= cap else None))
+        out.append(("%s-extra-17" % nm, put(ch + [17]) if len(ch) + 1 <= cap else None))
+        out.append(("%s-truncated" % nm, put(ch[:-1])))
+        out.append(("%s-all-zero" % nm, put([])))
+        out.append(("%s-huge" % nm, put(ch[:1] + [SIZE_MAX // 5 - 1] + ch[2:])))
+        out.append(("%s-huge2" % nm, put(ch[:1] + [SIZE_MAX] + ch[2:])))
+        # longest chain allowed by the rules (as quoted in the headers)
+        c = _chain(first, lambda v: (4 * v - (17 if plus4 else 1)) // 5)
+        out.append(("%s-longest" % nm, put(c) if len(c) <= cap else None))
+        for _ in range(6):
+            c = [first]
+            while c[-1] > 32:
+                hi = c[-1]
+                k = (4 * hi - (16 if plus4 else 0) - 1) // 5
+                c.append(rng.randrange((hi + 1) // 2, max((hi + 1) // 2, k) + 1))
+            out.append(("%s-random-valid" % nm, put(c) if len(c) <= cap and c[-1] >= 17 else None))
+        if scheme == "stb99" and nm == "di":
+            l, r = S["l"], M.STB99_R[M.STB99_L.index(S["l"])]
+            for x, lab in (((l + 1) // 2 - 1, "below-l/2"), ((l + 1) // 2, "l/2"), ((7 * l - 8 * r) // 8, "7l/8-r"),
+                           ((7 * l - 8 * r) // 8 + 1, "7l/8-r+1"), ((7 * l - r) // 8, "(7l-r)/8"), ((7 * l - r) // 8 + 1, "(7l-r)/8+1"),
+                           (l, "l")):
+                out.append(("di[0]:%s" % lab, put(_chain(x, lambda v: v // 2 + 1))))
+        if scheme == "stb99" and nm == "ri":
+            out.append(("ri[0]=r+1", put(_chain(first + 1, lambda v: v // 2 + 1))))
+            out.append(("ri[0]=r-1", put(_chain(first - 1, lambda v: v // 2 + 1))))
+        if scheme == "pfok":
+            out.append(("li[0]=l", put(_chain(first + 1, lambda v: v // 2 + 1))))
+            out.append(("li[0]=l-2", put(_chain(first - 1, lambda v: v // 2 + 1))))
+    for lv in (0, 1, S["l"] + 1, S["l"] - 1, 2942, 638, SIZE_MAX):
+        if lv != S["l"]:
+            out.append(("l=%d" % lv, dict(S, l=lv)))
+    return [(a, b) for a, b in out if b is not None]
+
+
+def unit_seeds(ctx):
+    lib, rng, rep = ctx.lib, ctx.rng, Reporter(ctx)
+    M.selftest()
+    scheme, name = ctx.params["scheme"], ctx.params["set"]
+    if scheme == "stb99":
+        lay, play, psize = M.STB99_SEED, M.STB99, 976
+        chains = [("di", 18, True), ("ri", 10, False)]
+        std, val, adj = lib.stb99ParamsStd, lib.stb99SeedVal, lib.stb99SeedAdj
+        verdict, madj = M.stb99_seed_verdict, M.stb99_seed_adj
+    else:
+        lay, play, psize = M.PFOK_SEED, M.PFOK, 760
+        chains = [("li", 20, True)]
+        std, val, adj = lib.pfokParamsStd, lib.pfokSeedVal, lib.pfokSeedAdj
+        verdict, madj = M.pfok_seed_verdict, M.pfok_seed_adj
+    p, s = lib.alloc(psize, 0), lib.alloc(lay.size, 0)
+    if std(p, s, lib.cstr(name)) != 0:
+        raise Harness("ParamsStd(%s)" % name)
+    S = lay.unpack(lib.rd(s, lay.size))
+    lib.release()
+    cases = _seed_cases(rng, S, chains, scheme)
+    fv, fa = scheme + "SeedVal", scheme + "SeedAdj"
+    for label, Q in cases:
+        raw = lay.pack(Q)
+        arr = label[:2] if label[:2] in ("zi", "di", "ri", "li") else label.split("=")[0]
+        if not ctx.case([fv, name, label, raw], "%s:%s" % (fv, label.split("=")[0])):
+            continue
+        v, why = verdict(Q)
+        r = val(lib.mk(raw))
+        lib.release()
+        ctx.digest(r)
+        ctx.classes["%s:model-%s" % (fv, "accept" if v else "reject")] += 1
+        judge(ctx, rep, fv, arr, v, why, r == 0, {"set": name, "alteration": label, "seed": Q, "model": [v, why], "ret": r})
+    # adjustment: all-zero arrays get defaults; filled arrays stay; invalid filled arrays -> error
+    adjc = []
+    arrs = ["zi"] + [c[0] for c in chains]
+    for mask in range(1 << len(arrs)):
+        Q = dict(S)
+        for i, nm in enumerate(arrs):
+            if mask >> i & 1:
+                Q[nm] = [0] * len(S[nm])
+        adjc.append(("zeroed:" + ",".join(nm for i, nm in enumerate(arrs) if mask >> i & 1), Q))
+    adjc += [("alt:" + a, b) for a, b in cases if a.startswith(("zi-random", chains[0][0] + "-last", chains[0][0] + "[1]", "l="))]
+    for lv in (M.STB99_L if scheme == "stb99" else M.PFOK_L):
+        Q = {k: ([0] * len(v) if isinstance(v, list) else v) for k, v in S.items()}
+        Q["l"] = lv
+        adjc.append(("level-defaults", Q))
+    for label, Q in adjc:
+        raw = lay.pack(Q)
+        if not ctx.case([fa, name, label, raw], "%s:%s" % (fa, label.split(":")[0])):
+            continue
+        m = madj(Q)
+        ps = lib.mk(raw)
+        r = adj(ps)
+        after = lay.unpack(lib.rd(ps, lay.size))
+        lib.release()
+        ctx.digest(r, lay.pack(after))
+        if m is None:
+            ctx.classes["undecided:" + fa] += 1
+            continue
+        ok, want = m
+        det = {"set": name, "case": label, "seed": Q, "ret": r, "after": after, "model": [ok, want]}
+        if ok and r != 0:
+            rep("%s:rejects-valid:%s" % (fa, label.split(":")[0]), fa + " fails although the adjusted seed is correct per the header", det)
+        elif not ok and r == 0:
+            rep("%s:accepts-invalid:%s" % (fa, label.split(":")[0]), fa + " succeeds although the result is not a correct seed", det)
+        elif ok and after != want:
+            rep("%s:wrong-defaults" % fa, fa + " does not produce the documented default values", det)
+    rep.flush()
+
+
+def unit_gen(ctx):
+    """parameters generated from seeds must validate (library validator and model); bounded: smallest levels only"""
+    lib, rng, rep = ctx.lib, ctx.rng, Reporter(ctx)
+    scheme, variant = ctx.params["scheme"], ctx.params["variant"]
+    if scheme == "stb99":
+        lay, play = M.STB99_SEED, M.STB99
+        std, gen, pval, sadj = lib.stb99ParamsStd, lib.stb99ParamsGen, lib.stb99ParamsVal, lib.stb99SeedAdj
+        mver = M.stb99_verdict
+    else:
+        lay, play = M.PFOK_SEED, M.PFOK
+        std, pval, sadj = lib.pfokParamsStd, lib.pfokParamsVal, lib.pfokSeedAdj
+        gen = lambda o, s: lib.pfokParamsGen(o, s, 0)
+        mver = M.pfok_verdict
+    p, s = lib.alloc(play.size, 0), lib.alloc(lay.size, 0)
+    std(p, s, lib.cstr("test"))
+    S = lay.unpack(lib.rd(s, lay.size))
+    Pstd = play.unpack(lib.rd(p, play.size))
+    lib.release()
+    if variant == "std-seed":
+        Q = S
+    elif variant == "default-seed":
+        Q = {k: ([0] * len(v) if isinstance(v, list) else v) for k, v in S.items()}
+    else:
+        Q = dict(S, zi=[rng.randrange(1, 65257) for _ in range(31)])
+    if not ctx.case([scheme + "ParamsGen", variant, lay.pack(Q)], "%sParamsGen:%s" % (scheme, variant)):
+        return
+    ps = lib.mk(lay.pack(Q))
+    if variant == "default-seed" and sadj(ps) != 0:
+        raise Harness("SeedAdj failed on an all-zero seed")
+    out = lib.alloc(play.size)
+    r = gen(out, ps)
+    raw = lib.rd(out, play.size)
+    lib.release()
+    ctx.digest(r, raw if r == 0 else b"")
+    if r != 0:
+        rep("%sParamsGen:fails" % scheme, "generation from a correct seed fails", {"variant": variant, "ret": r, "seed": Q})
+        rep.flush()
+        return
+    G = play.unpack(raw)
+    v, why = mver(G)
+    r2 = pval(lib.mk(play.pack(G)))
+    lib.release()
+    if variant == "std-seed":
+        # pfok_test.c / stb99_test.c compare l, r, (n,) p (q, a); the standard g of pfok is not the generated one
+        same = all(G[k] == Pstd[k] for k in (("l", "r", "p", "q", "a") if scheme == "stb99" else ("l", "r", "n", "p")))
+        if not same:
+            rep("%sParamsGen:std-seed-mismatch" % scheme, "generation from the standard seed does not reproduce the standard parameters",
+                {"generated": raw})
+    if not v:
+        rep("%sParamsGen:invalid-by-model:%s" % (scheme, why), "generated parameters violate a documented condition", {"params": raw, "why": why})
+    if r2 != 0:
+        rep("%sParamsVal:rejects-valid:generated" % scheme, "generated parameters are rejected by the validator", {"params": raw, "ret": r2})
+    rep.flush()
+
+
+# =============================================================================
+# keys
+# =============================================================================
+
+def unit_keys(ctx):
+    """bign / bign96: PubkeyVal (in-range point of the curve) and KeypairVal (0 < d < q and Q = dG); pfokPubkeyVal"""
+    lib, rng, rep = ctx.lib, ctx.rng, Reporter(ctx)
+    name, scale = ctx.params["set"], ctx.params.get("scale", 1.0)
+    if name in PFOK_STD:
+        p = lib.alloc(760, 0)
+        lib.pfokParamsStd(p, 0, lib.cstr(name))
+        raw = lib.rd(p, 760)
+        P = M.PFOK.unpack(raw)
+        lib.release()
+        l, r = P["l"], P["r"]
+        no, mo = (l + 7) // 8, (r + 7) // 8
+        pv = M.le(P["p"])
+        # pfok.h does not list the conditions of pfokPubkeyVal; only what follows from "pubkey = g^(privkey) is an
+        # element of B_p (non-negative residues mod p, 0 is not in the group)" is tested
+        cases = [("zero", 0, False), ("p", pv, False), ("p+1", pv + 1, False), ("ones", (1 << (8 * no)) - 1, False)]
+        for i in range(int(4 * scale)):
+            x = rng.getrandbits(r)
+            cases.append(("calc", ("calc", x), True))
+        for lab, y, exp in cases:
+            if not ctx.case(["pfokPubkeyVal", name, lab, y], "pfokPubkeyVal:" + lab):
+                continue
+            if lab == "calc":
+                out = lib.alloc(no)
+                rc = lib.pfokPubkeyCalc(out, lib.mk(raw), lib.mk(M.to_le(y[1], mo)))
+                yb = lib.rd(out, no)
+                lib.release()
+                if rc != 0:
+                    raise Harness("pfokPubkeyCalc failed")
+                if M.le(yb) != M.mont_power(M.le(P["g"]), y[1], pv, l) and y[1] > 0:
+                    rep("pfokPubkeyCalc:wrong", "pubkey != g^(privkey) in B_p", {"x": y[1]})
+            else:
+                yb = M.to_le(y, no)
+            rc = lib.pfokPubkeyVal(lib.mk(raw), lib.mk(yb))
+            lib.release()
+            ctx.digest(rc)
+            judge(ctx, rep, "pfokPubkeyVal", lab, exp, lab, rc == 0, {"set": name, "pubkey": yb, "ret": rc})
+        rep.flush()
+        return
+    v96 = name in BIGN96_STD
+    pfx = "bign96" if v96 else "bign"
+    p = lib.alloc(336, 0)
+    (lib.bign96ParamsStd if v96 else lib.bignParamsStd)(p, lib.cstr(name))
+    raw = lib.rd(p, 336)
+    P = M.BIGN.unpack(raw)
+    lib.release()
+    no = P["l"] // 4
+    pv, av, bv, qv, yG = (M.le(P[f][:no]) for f in ("p", "a", "b", "q", "yG"))
+    E = ec.Curve(pv, av, bv)
+    G = (0, yG)
+    pubval = lib.bign96PubkeyVal if v96 else lib.bignPubkeyVal
+    kpval = lib.bign96KeypairVal if v96 else lib.bignKeypairVal
+    lim = 1 << (8 * no)
+
+    def enc(pt):
+        return M.to_le(pt[0], no) + M.to_le(pt[1], no)
+    pts = [("G", G), ("-G", E.neg(G)), ("(0,0)", (0, 0)), ("(0,1)", (0, 1)), ("(p-1,p-1)", (pv - 1, pv - 1))]
+    for i in range(int(6 * scale)):
+        Q = E.mul(rng.randrange(1, qv), G)
+        pts += [("on-curve", Q), ("(x,p-y)", E.neg(Q)), ("(x,y+1)", (Q[0], (Q[1] + 1) % pv)), ("(x+1,y)", ((Q[0] + 1) % pv, Q[1]))]
+        if Q[0] + pv < lim:
+            pts.append(("x+p", (Q[0] + pv, Q[1])))
+        if Q[1] + pv < lim:
+            pts.append(("y+p", (Q[0], Q[1] + pv)))
+        pts.append(("x=p", (pv, Q[1])))
+        pts.append(("y=p", (Q[0], pv)))
+        pts.append(("x-top-bits", (Q[0] | (lim >> 1), Q[1])))
+        # twist: x whose right-hand side is a non-residue, y = sqrt(-rhs) (p = 3 mod 4: -rhs is a residue)
+        x = rng.randrange(pv)
+        while ec.legendre((x * x * x + av * x + bv) % pv, pv) != -1:
+            x = (x + 1) % pv
+        pts.append(("twist", (x, ec.sqrt_mod(-(x * x * x + av * x + bv) % pv, pv))))
+        pts.append(("random", (rng.getrandbits(8 * no), rng.getrandbits(8 * no))))
+    for lab, pt in pts:
+        if not ctx.case([pfx + "PubkeyVal", name, lab, enc(pt)], pfx + "PubkeyVal:" + lab):
+            continue
+        exp = M.ecp_pubkey_valid(pv, av, bv, pt[0], pt[1])
+        rc = pubval(lib.mk(raw), lib.mk(enc(pt)))
+        lib.release()
+        ctx.digest(rc)
+        judge(ctx, rep, pfx + "PubkeyVal", lab, exp, lab, rc == 0, {"set": name, "pubkey": enc(pt), "ret": rc})
+    # key pairs
+    kps = []
+    for d, lab in ((0, "d=0"), (1, "d=1"), (2, "d=2"), (qv - 1, "d=q-1"), (qv, "d=q"), (qv + 1, "d=q+1"), (lim - 1, "d=ones"),
+                   (qv + rng.randrange(2, 1000), "d>q")):
+        if d >= lim:
+            continue
+        Q = E.mul(d % qv, G)
+        kps.append((lab, d, Q if Q is not None else G))
+    for i in range(int(4 * scale)):
+        d = rng.randrange(1, qv)
+        Q = E.mul(d, G)
+        kps += [("random-valid", d, Q), ("Q=-dG", d, E.neg(Q)), ("Q=(d+1)G", d, E.add(Q, G)), ("Q.y+1", d, (Q[0], (Q[1] + 1) % pv)),
+                ("Q=G", d, G)]
+    for lab, d, Q in kps:
+        if not ctx.case([pfx + "KeypairVal", name, lab, d, enc(Q)], pfx + "KeypairVal:" + lab):
+            continue
+        exp = 0 < d < qv and E.mul(d, G) == Q
+        rc = kpval(lib.mk(raw), lib.mk(M.to_le(d, no)), lib.mk(enc(Q)))
+        lib.release()
+        ctx.digest(rc)
+        judge(ctx, rep, pfx + "KeypairVal", lab, exp, lab, rc == 0, {"set": name, "d": d, "pubkey": enc(Q), "ret": rc})
+    rep.flush()
+
+
+# =============================================================================
+# jobs
+# =============================================================================
+
+# unit -> configuration of the standard run ("heavy number theory under rel64, validators under asan64")
+CFG = {"unit_primes_window": "rel64"}
+
+
+def jobs(tier, scale=1.0):
+    q = tier == "quick"
+    J = []
+
+    def add(unit, **params):
+        J.append({"unit": "c12:" + unit, "params": params})
+    # dates: exhaustive in both tiers
+    for part in ("pair0", "pair1", "pair2", "century", "misc", "ymd"):
+        add("unit_dates", part=part, random=max(250, int((3000 if q else 30000) * scale)))
+    # exhaustive prime windows
+    top = 1 << (17 if q else 20)
+    top = max(1 << 12, int(top * scale) // 4096 * 4096)
+    nch = 8 if q else 16
+    for k in range(nch):
+        add("unit_primes_window", lo=top * k // nch // 256 * 256, hi=top * (k + 1) // nch // 256 * 256, fns="WPN")
+    half = max(1 << 10, int((1 << (13 if q else 16)) * scale) // 256 * 256)
+    c = 1 << 32
+    nch = 2 if q else 8
+    for k in range(-nch, nch):
+        add("unit_primes_window", lo=c + half * k // nch // 256 * 256, hi=c + half * (k + 1) // nch // 256 * 256, fns="WPN")
+    for cen in (1373653, 4759123141, 1 << 16, 1 << 31):       # thresholds of priIsPrimeW's base sets, bit-length borders
+        lo = (cen - 2048) // 256 * 256
+        add("unit_primes_window", lo=lo, hi=lo + 4096, fns="WPN")
+    for part in ("pseudo", "semiprime", "pow2", "std", "sg", "sieve"):
+        add("unit_primes_special", part=part, scale=scale * (1 if q else 4), maxbits=1600 if q else 4096)
+    for part in ("small", "gaps", "top", "random", "leadzero"):
+        add("unit_nextprime", part=part, scale=scale * (1 if q else 6))
+    # polynomials: all of degree <= 16
+    nch = 8 if q else 16
+    ptop = max(1 << 11, int((1 << 17) * min(1.0, scale)) // 2048 * 2048)
+    for k in range(nch):
+        add("unit_poly_small", lo=ptop * k // nch // 256 * 256, hi=ptop * (k + 1) // nch // 256 * 256)
+    for deg in (128, 192, 256):
+        for ch in range(1 if q else 4):
+            add("unit_poly_large", deg=deg, chunk=ch, scale=scale * (1 if q else 3))
+    # parameters
+    fl = max(1, int((6 if q else 64) * scale))
+    for nm in BIGN_STD + BIGN96_STD:
+        nchunk = 1 if q else 4
+        for ch in range(nchunk):
+            add("unit_bign", set=nm, flips=fl, chunk=ch, chunks=nchunk)
+    for nm in G12S_STD:
+        nchunk = 1 if q else 3
+        for ch in range(nchunk):
+            add("unit_g12s", set=nm, flips=fl, chunk=ch, chunks=nchunk)
+    for nm in DSTU_STD:
+        add("unit_dstu", set=nm, flips=max(1, int((3 if q else 24) * scale)))
+    for i, nm in enumerate(STB99_STD):
+        nchunk = (1, 1, 2, 4)[i] * (1 if q else 3)
+        for ch in range(nchunk):
+            add("unit_stb99", set=nm, flips=max(1, int((2 if q else 12) * scale)), chunk=ch, chunks=nchunk, lite=q and i >= 2)
+    for i, nm in enumerate(PFOK_STD):
+        nchunk = (1, 1, 2, 4)[i] * (1 if q else 3)
+        for ch in range(nchunk):
+            add("unit_pfok", set=nm, flips=max(1, int((2 if q else 12) * scale)), chunk=ch, chunks=nchunk, lite=q and i >= 2)
+    for nm in STB99_STD:
+        add("unit_seeds", scheme="stb99", set=nm)
+    for nm in PFOK_STD:
+        add("unit_seeds", scheme="pfok", set=nm)
+    for v in ("std-seed", "default-seed", "random-zi"):
+        add("unit_gen", scheme="stb99", variant=v, k=0)
+    add("unit_gen", scheme="pfok", variant="std-seed", k=0)
+    if not q:
+        add("unit_gen", scheme="pfok", variant="default-seed", k=0)
+        for k in range(1, 1 + max(1, int(4 * scale))):
+            add("unit_gen", scheme="stb99", variant="random-zi", k=k)
+            add("unit_gen", scheme="pfok", variant="random-zi", k=k)
+    for nm in BIGN_STD + BIGN96_STD + PFOK_STD[:2]:
+        add("unit_keys", set=nm, scale=scale * (1 if q else 5))
+    return J
+
+
+HEAVY = ("1.2.112.0.2.0.1176.2.3.6.", "1.2.112.0.2.0.1176.2.3.10.")
+
+
+def _cfg(job, tier):
+    u = job["unit"].split(":")[1]
+    if u in CFG:
+        return CFG[u]
+    if tier == "quick" and u in ("unit_stb99", "unit_pfok") and job["params"]["set"].startswith(HEAVY):
+        return "rel64"            # 1500..2500-bit primality tests: ASan build only in the thorough tier
+    if u == "unit_gen" and job["params"]["scheme"] == "pfok" and job["params"]["variant"] == "random-zi":
+        return "rel64"
+    return "asan64"
+
+
+def main(run):
+    js = [dict(j, cfg=_cfg(j, run.tier)) for j in jobs(run.tier)]
+    if run.tier != "quick":
+        # word-size specific code (32-bit words): numbers around 2^32 go through the multi-word functions
+        w32 = ("unit_primes_window", "unit_primes_special", "unit_nextprime", "unit_poly_small", "unit_poly_large", "unit_dates")
+        for j in jobs("quick", 0.5):
+            u = j["unit"].split(":")[1]
+            if u in w32 or (u in ("unit_bign", "unit_g12s", "unit_dstu", "unit_keys", "unit_seeds") and j["params"].get("set", "").endswith(("1", "test", "0"))):
+                js.append(dict(j, cfg="asan32"))
+    # longest first
+    order = {"unit_pfok": 0, "unit_stb99": 1, "unit_gen": 2, "unit_dstu": 3, "unit_g12s": 4, "unit_bign": 5}
+    js.sort(key=lambda j: order.get(j["unit"].split(":")[1], 9))
+    run.run_jobs(js)
+    run.coverage_extra["exhaustive"] = {
+        "tmDateIsValid2: each octet pair x 65536 (two bases per pair), all 36525 dates of 2000-2099": True,
+        "priIsPrimeW/priIsPrime/priNextPrimeW on [0, 2^%d) and [2^32 - 2^%d, 2^32 + 2^%d)" % ((17, 13, 13) if run.tier == "quick" else (20, 16, 16)): True,
+        "ppIsIrred on all polynomials of degree <= 16": True,
+    }
+    return run.finish(
+        rule="case = one validator call (standard object, or one alteration of one field of it: bit flip, byte swap, arithmetic "
+             "change, replacement by a related valid/invalid value) or a block of 256 consecutive integers / polynomials / dates of an "
+             "exhaustive window; the model verdict decides accept/reject; distinct = distinct (function, object) descriptions",
+        assumptions=[
+            "the oracle contains only conditions stated in the headers or in the comment blocks of the *ParamsVal sources; cases the "
+            "documentation does not settle (bign96 unused octets / a = 0, size of p in g12s, polynomial shapes gf2Create refuses, "
+            "normal basis in dstu, partly zero zi in SeedAdj, priIsSmooth on base elements and 0, pfokPubkeyVal beyond 0 < y < p) are executed but not judged",
+            "pfokParamsVal is judged by its own list in pfok.h (g of order p - 1), not by the section text (order q)",
+            "priRMTest/priIsPrime/priNextPrime are probabilistic: composites are submitted with iter >= 16 (documented error <= 4^-iter)",
+            "belt-hash of the library is used to evaluate B(seed) of STB 34.101.45 alg. 6.1.4 (C01 covers belt)",
+            "primality oracle: sieve below 2^33, deterministic Miller-Rabin (13 bases) below 3.3e24, + 40 (12 above 1100 bits) random bases above",
+        ],
+        min_eval=100000,
+        required_classes=("date2:pair-exhaustive", "date2:century-valid", "date2:octet>9", "date:ymd-grid",
+                          "window:word:priIsPrimeW", "window:word:priIsPrime", "window:word:priNextPrimeW",
+                          "strong-pseudoprime:composite", "carmichael:composite", "semiprime:composite", "2^k+c:prime",
+                          "sg:yes", "sg:no", "np:top-of-bitlen-none", "np:gap+trials", "np:leading-zero-words",
+                          "poly:exhaustive-deg<=16", "poly128:product", "poly192:genm0", "poly256:std", "ppIsIrred:stack=deep-exact",
+                          "bignParamsVal:std", "bignParamsVal:flip", "bignParamsVal:model-accept", "bignParamsVal:model-reject",
+                          "bign96ParamsVal:flip", "g12sParamsVal:std", "g12sParamsVal:model-accept", "g12sParamsVal:model-reject",
+                          "dstuParamsVal:std", "dstuParamsVal:model-accept", "dstuParamsVal:model-reject",
+                          "stb99ParamsVal:std", "stb99ParamsVal:model-reject", "pfokParamsVal:std", "pfokParamsVal:model-reject",
+                          "stb99SeedVal:model-accept", "stb99SeedVal:model-reject", "pfokSeedVal:model-reject", "stb99SeedAdj:zeroed",
+                          "stb99ParamsGen:std-seed", "pfokParamsGen:std-seed",
+                          "bignPubkeyVal:twist", "bignPubkeyVal:x=p", "bignKeypairVal:d=q", "bign96KeypairVal:d=0", "pfokPubkeyVal:zero"))
